@@ -545,13 +545,16 @@ void HyperedgeTreeEdge::writeEdgesToConns(HyperedgeTreeNode *ignored,
                     // pin routing.  If so, remove these points from the
                     // resulting route.
                     conn->m_display_route.ps.pop_back();
-                    std::vector<Point>& ps = conn->m_display_route.ps;
-                    if ((ps.size() > 1) &&
-                            (ps[ps.size() - 1] == ps[ps.size() - 2]))
+                    if (prevNode->isPinDummyEndpoint &&
+                            !conn->m_display_route.ps.empty())
                     {
-                        // Duplicated dummy point.  Remove second one, but
-                        // keep the route ending at the pin position.
-                        ps.pop_back();
+                        // The dummy vertex was reached via its orthogonal
+                        // partner, a copy of it at the same position.
+                        // Remove this second dummy point too.  The point
+                        // before it is the pin, which stays in the route
+                        // even when it has the same position (a pin at
+                        // the centre of the shape).
+                        conn->m_display_route.ps.pop_back();
                     }
                 }
             }
